@@ -83,7 +83,7 @@ class CallMixin:
         # record.replace(**kw) / namedtuple._replace
         if name in ("replace", "_replace") and not args and kw and "**" not in kw and (
                 self._recordish(recv) or recv.kind not in ("ext", "mod", "cls", "const")):
-            out = recv
+            out = self.mk_copy(recv)
             for n, v in kw.items():
                 out = self.mk_update(out, n, v)
             return out
@@ -356,6 +356,8 @@ class CallMixin:
     # ------------------------------------------------------------------ externals
     def ext_call(self, q: str, args: List[T], kw: Dict[str, T], fr, node) -> T:
         short = q.split(".")[-1]
+        if fr is not None:
+            self.ext_calls.append((q, fr.func, node))
         if q.startswith("jax.numpy.") or q.startswith("jax.lax.") or q.startswith("numpy."):
             if short in NORMAL_BIN and len(args) == 2 and not kw:
                 return self.mk_bin(NORMAL_BIN[short], args[0], args[1], fr)
@@ -379,6 +381,13 @@ class CallMixin:
     def callback(self, f: T, args: List[T], kw: Dict[str, T], fr, node) -> T:
         """Apply a function value as a combinator callback: its parameters are fresh
         containers (JAX unflattens tracers), which the freshness analysis relies on."""
+        def fresh(a):
+            ci = self.typeof(a)
+            if ci is not None and self.tree.is_record(ci) == "dataclass":
+                return self.mk_copy(a)
+            return a
+        args = [fresh(a) for a in args]
+        kw = {k: fresh(v) for k, v in kw.items()}
         for a in args:
             self.callback_params.add(a.id)
         return self.apply(f, args, kw, fr, node)
@@ -567,9 +576,7 @@ class CallMixin:
     # ---- dataclasses.replace
     def x_dataclasses_replace(self, args, kw, fr, node):
         if len(args) == 1:
-            out = args[0]
-            if not kw:
-                return mk("call", mk("ext", "dataclasses.replace"), (out,), ())
+            out = self.mk_copy(args[0])
             for n, v in kw.items():
                 out = self.mk_update(out, n, v)
             return out
